@@ -7,9 +7,9 @@ import json
 import sys
 
 
-def fitness_of(canon_string: str) -> float:
+def fitness_of(canon_string: str, levels: int = 7) -> float:
     h = hashlib.sha256(canon_string.encode()).digest()
-    return float(int.from_bytes(h[:2], "big") % 7)  # coarse: ties and plateaus happen
+    return float(int.from_bytes(h[:2], "big") % levels)  # coarse: ties and plateaus happen
 
 
 def _make_init(case, w):
@@ -35,6 +35,12 @@ def _make_step(case):
         from vk.steps import build_step
 
         return build_step(["par", [["elitism"], ["seq", [["tournament", 3, False], ["crossover", 1.0], ["mutation", 0.5]]]], [1, 9]])
+    if case["alg"] == "gp" and case.get("gp_step") == "elitism-heavy":
+        # several elitism slots in every generation: WHICH of several equally fit programs survive decides
+        # what the next generation is bred from
+        from vk.steps import build_step
+
+        return build_step(["par", [["elitism"], ["seq", [["tournament", 2, False], ["crossover", 0.7], ["mutation", 0.7]]]], [4, 6]])
     return None
 
 
@@ -50,9 +56,9 @@ def _one_search(case, w, init, step, full):
         def ff(p):
             s = canon_str(canon(p, info))
             seq.append(s)
-            return fitness_of(s)
+            return fitness_of(s, case.get("fitness_levels", 7))
 
-        _, best = w.search(case["alg"], case["budget"], case["popsize"], fitness=ff, minimize=case["minimize"], initializer=init, step=step)
+        _, best = w.search(case["alg"], case["budget"] * (case.get("budget_factor", 1) if case["alg"] == "gp" else 1), case["popsize"], fitness=ff, minimize=case["minimize"], initializer=init, step=step)
         if best is not None:
             best_s = canon_str(canon(best.get_phenotype(), info))
             best_f = best.get_fitness(w.last_problem).fitness_components[0]
